@@ -11,7 +11,7 @@ ENGINES = [
      "kind_free_text": "explicit-state BFS over operation histories on the real objects, canonical-state merging, reference model per step, unmerged cross-check"},
 ]
 
-FIX_COMMITS = ["9971f7b (C01)", "a8b3a60 (C05)", "d2c67e0 (C06)", "af8a5f7 (C06)", "34517b9 (C07)", "64d9058 (C07)", "904ce30 (C11)", "3cabaaa (C11)", "16cad7c (C17)", "914c67b (C17)", "3644eb2 (C20)", "62e89ba (C20)", "4c86fa4 (C04)", "7c927a3 (C16)", "3b28f4c (C16)", "63b789b (C16)", "fe25d7c (C08)", "befe4b1 (C08)", "06b04f5 (C08)", "fbc7b08 (C13)", "7b7750f (C13)", "0b2d530 (C13)", "3717859 (C19)", "1162db7 (C19)", "1ef4601 (C02)", "41fcc59 (C02)", "8eee2e6 (C02)", "f691a46 (C03)", "cc96ad7 (C10)", "12bc436 (C10)", "7b37d74 (C09)", "e4cffa4 (C09)", "0d05afb (C09)", "1fda812 (C12)", "52bde7a (C03)", "adc268a (C01)", "88cad76 (C01)", "16a930a (C01)", "aa5ac88 (C10)", "e5e378b (C10)", "5c39267 (C01)", "e4ae6ac (C10)", "42c5837 (C12)", "75cf70a (C10)", "f36d2ab (C03)", "81d4c5d (C01)", "314af4d (C07)", "325db67 (C19)", "6540976 (C02)", "be44056 (C02)", "3f56e87 (C02)", "57efff7 (C18)", "414e9eb (C12)", "1316837 (C07)", "0d154a6 (C03)", "b33a62d (C06)", "8b1d8e3 (C06)", "dfcb3f4 (C04)"]
+FIX_COMMITS = ["9971f7b (C01)", "a8b3a60 (C05)", "d2c67e0 (C06)", "af8a5f7 (C06)", "34517b9 (C07)", "64d9058 (C07)", "904ce30 (C11)", "3cabaaa (C11)", "16cad7c (C17)", "914c67b (C17)", "3644eb2 (C20)", "62e89ba (C20)", "4c86fa4 (C04)", "7c927a3 (C16)", "3b28f4c (C16)", "63b789b (C16)", "fe25d7c (C08)", "befe4b1 (C08)", "06b04f5 (C08)", "fbc7b08 (C13)", "7b7750f (C13)", "0b2d530 (C13)", "3717859 (C19)", "1162db7 (C19)", "1ef4601 (C02)", "41fcc59 (C02)", "8eee2e6 (C02)", "f691a46 (C03)", "cc96ad7 (C10)", "12bc436 (C10)", "7b37d74 (C09)", "e4cffa4 (C09)", "0d05afb (C09)", "1fda812 (C12)", "52bde7a (C03)", "adc268a (C01)", "88cad76 (C01)", "16a930a (C01)", "aa5ac88 (C10)", "e5e378b (C10)", "5c39267 (C01)", "e4ae6ac (C10)", "42c5837 (C12)", "75cf70a (C10)", "f36d2ab (C03)", "81d4c5d (C01)", "314af4d (C07)", "325db67 (C19)", "6540976 (C02)", "be44056 (C02)", "3f56e87 (C02)", "57efff7 (C18)", "414e9eb (C12)", "1316837 (C07)", "0d154a6 (C03)", "b33a62d (C06)", "8b1d8e3 (C06)", "dfcb3f4 (C04)", "fa54cf6 (C08)"]
 
 _PENDING = "check not built yet in this session (build order: DESIGN.md section 6); it will be decided by the same bounded-exhaustive technique"
 
